@@ -45,6 +45,9 @@ def run_case(case):
             step = {"op": "pull", "path": "/f" + case["seed"].replace(":", "_"), "size": size, "seed": case["seed"], "rec": rng.choice(["64k", "one", "random", "alt", "zeros"]),
                     "split": rng.choice(["whole", "random", "random", "bytes1"]) if size <= 300 else rng.choice(["whole", "random"]),
                     "dest": rng.choice(["bytesio", "path"]), "cb": rng.choice([None, "ok", "raise", "raisebase"])}
+            if step["cb"] and size and int(case["seed"].split(":")[-1].strip("abcdefghijklmnopqrstuvwxyz") or 0) % 7 == 3:
+                step["stat_size"] = [0, size + 1, 1][size % 3]      # the STAT of a virtual or growing file does not give the number of bytes RECV delivers
+                stats["stat_size_differs"] = 1
             sess = gen.make_session(case["impl"], dims, case["seed"])
             r = scen.Runner(sess, {"dims": dims, "steps": []})
             r.tmp = tmp
